@@ -20,6 +20,13 @@ var vC16Functions = []string{
 	`(defn f [#p #r] (+ (force #r) (force #p)))`,          // two lazy, forced in reverse order
 	`(defn f [q & rest] (list q rest))`,                   // variadic tail is strict
 	`(defn f [#p & rest] (begin (t 555) (list (force #p) rest)))`, // lazy then variadic
+	// force and substitute in every order on one lazy argument: forcing never
+	// changes the source, recovering the source never forces
+	`(defn f [#p q] (list (force #p) (substitute #p)))`,
+	`(defn f [#p q] (list (substitute #p) (force #p) (substitute #p)))`,
+	`(defn f [#p q] (begin (force #p) (force #p) (list (substitute #p) (force #p))))`,
+	`(defn f [#p q] (let [s1 (substitute #p) v (force #p)] (list s1 v (substitute #p) q)))`,
+	`(defn f [#p #r] (begin (force #r) (list (substitute #p) (substitute #r) (force #p))))`,
 	// the function calls itself with an observable argument in the lazy
 	// position: in tail position (compiled as a jump), not in tail position,
 	// under a let, and handing the source back
